@@ -27,7 +27,7 @@ MANIFEST = dict(
     design_ref="DESIGN.md 4.C02",
 )
 COQ_FILES = MODEL_FILES + ["Base/Amp.v", "Model/KrausCheck.v", "Proofs/CircuitProofs.v", "Proofs/CircuitTheorem.v", "Proofs/BitIdx.v",
-                          "Proofs/DenseBridge.v", "Proofs/KrausSem.v", "Proofs/KrausLocal.v", "Proofs/KrausTheorem.v", "Proofs/KrausGates.v", "Proofs/KrausFeedback.v", "Proofs/KrausNoise2.v",
+                          "Proofs/DenseBridge.v", "Proofs/KrausSem.v", "Proofs/KrausLocal.v", "Proofs/KrausTheorem.v", "Proofs/KrausGates.v", "Proofs/KrausFeedback.v", "Proofs/KrausNoise2.v", "Proofs/KrausRot.v",
                           "Proofs/KrausCircuit.v", "Props/C02.v"]
 
 
@@ -82,7 +82,7 @@ def run(ctx: Ctx) -> int:
     cases = [(t, {"corpus": 1}, False) for t in corpus]
     for _ in range(20 if ctx.quick else 600):
         cases.append(gen(rng, nq_max=(4 if rng.random() < 0.3 else 3), max_meas=4, max_noise=3, annotated=False, max_instr=12))
-    stats = run_cases(ctx, cases, det=False, label="noise", model_max=(30 if ctx.quick else 200),
+    stats = run_cases(ctx, cases, det=False, label="noise", model_max=(30 if ctx.quick else 200), elab=True,
                       deadline=time.time() + (150 if ctx.quick else 1500))
     ctx.cov.update({"stats": stats})
     if ctx.broken and not ctx.violations:
